@@ -17,7 +17,13 @@ def holder_pairs(rng, count):
         n = rng.choice([2, 3, 4, 5])
         m = rng.choice([2, 3, 5, 8, 50 // n])
         lo, hi = H.random_box(rng, n)
-        ev = Evolvent(lo, hi, n, m)
+        pre = O.random_prehistory(rng, n, lo, hi)
+        try:
+            ev = O.evolvent_of({'n': n, 'm': m, 'lo': lo, 'hi': hi, 'prehistory': pre})
+            ev.GetImage(0.25)
+        except Exception as e:
+            fails.append(({'n': n, 'm': m, 'lo': lo, 'hi': hi, 'x1': 0.25, 'x2': 0.75, 'prehistory': pre}, 'implementation raised %s: %s' % (type(e).__name__, str(e)[:150])))
+            continue
         K = 2 ** (n * m)
         side = max(b - a for a, b in zip(lo, hi))
         for _ in range(6):
@@ -40,8 +46,50 @@ def holder_pairs(rng, count):
             bound = 2 * math.sqrt(n + 3) * abs(x1 - x2) ** (1.0 / n) * side
             n_eval += 1
             if dist > bound * (1 + 1e-9):
-                fails.append(({'n': n, 'm': m, 'lo': lo, 'hi': hi, 'x1': x1, 'x2': x2},
+                fails.append(({'n': n, 'm': m, 'lo': lo, 'hi': hi, 'x1': x1, 'x2': x2, 'prehistory': pre},
                               '||y(x1)-y(x2)|| = %.6g exceeds 2 sqrt(N+3) |x1-x2|^(1/N) side = %.6g (N=%d m=%d)' % (dist, bound, n, m)))
+    return fails, n_eval
+
+
+def deep_adjacency(rng, count):
+    """adjacency of consecutive subintervals and nesting m -> m+1 at deep densities, around coarse boundaries, used objects"""
+    fails = []
+    n_eval = 0
+    for _ in range(count):
+        n = rng.choice([2, 3, 4, 5])
+        m = rng.choice([3, 6, 50 // n - 1, 50 // n])
+        lo, hi = H.random_box(rng, n, nice=rng.random() < 0.5)
+        pre = O.random_prehistory(rng, n, lo, hi)
+        case = {'n': n, 'm': m, 'lo': lo, 'hi': hi, 'prehistory': pre}
+        try:
+            ev = O.evolvent_of(case)
+            ev.GetImage(0.25)
+        except Exception as e:
+            fails.append((dict(case, i=0), 'implementation raised %s: %s' % (type(e).__name__, str(e)[:150])))
+            continue
+        K = 2 ** (n * m)
+        w = [(b - a) / 2.0 ** m for a, b in zip(lo, hi)]
+        for _ in range(8):
+            if rng.random() < 0.6:
+                L = rng.randint(1, min(m, 3))
+                i = rng.randrange(1, 2 ** (n * L)) * 2 ** (n * (m - L)) - rng.randint(0, 6)
+            else:
+                i = rng.randrange(K - 1)
+            i = min(max(i, 0), K - 2)
+            y1 = [float(v) for v in ev.GetImage(float(Fr(2 * i + 1, 2 * K)))]
+            y2 = [float(v) for v in ev.GetImage(float(Fr(2 * i + 3, 2 * K)))]
+            d = [abs(a - b) / c for a, b, c in zip(y1, y2, w)]
+            n_eval += 1
+            if sorted(round(v, 6) for v in d) != [0.0] * (n - 1) + [1.0]:
+                fails.append((dict(case, i=i), 'cells of consecutive subintervals %d, %d differ by %r cell widths per axis, expected exactly one 1 (N=%d m=%d)'
+                              % (i, i + 1, [round(v, 4) for v in d], n, m)))
+                continue
+            if n * (m + 1) <= 50:
+                ev2 = O.evolvent_of(dict(case, m=m + 1))
+                j = i * 2 ** n + rng.randrange(2 ** n)
+                y3 = [float(v) for v in ev2.GetImage(float(Fr(2 * j + 1, 2 * K * 2 ** n)))]
+                if any(abs(a - b) > c / 2 * (1 + 1e-9) for a, b, c in zip(y3, y1, w)):
+                    fails.append((dict(case, i=i, j=j), 'density %d cell of subinterval %d is not inside the density %d cell of subinterval %d' % (m + 1, j, m, i)))
     return fails, n_eval
 
 
@@ -67,6 +115,10 @@ def run(chk):
     chk.evaluations += n_eval
     for case, msg in fails[:3]:
         found += chk.violation('holder', msg, {'kind': 'pair', 'case': case})
+    fails, n_eval = deep_adjacency(rng, 300 if thorough else 60)
+    chk.evaluations += n_eval
+    for case, msg in fails[:3]:
+        found += chk.violation('deep-adjacency', msg, {'kind': 'deep', 'case': case})
     if not found:
         for c in bad_img[:2]:
             chk.violation('image-mismatch', 'GetImage disagrees with the model (code %d)' % c['code'], {'kind': 'image-corr', 'case': c})
@@ -81,9 +133,11 @@ def replay(chk, rp):
         print(fails); return not fails
     if rp.get('kind') == 'pair':
         from iOpt.evolvent.evolvent import Evolvent
-        c = rp['case']; ev = Evolvent(c['lo'], c['hi'], c['n'], c['m'])
+        c = rp['case']; ev = O.evolvent_of(c)
         y1 = ev.GetImage(c['x1']).copy(); y2 = ev.GetImage(c['x2']).copy()
         dist = math.sqrt(sum((float(a) - float(b)) ** 2 for a, b in zip(y1, y2)))
         bound = 2 * math.sqrt(c['n'] + 3) * abs(c['x1'] - c['x2']) ** (1.0 / c['n']) * max(b - a for a, b in zip(c['lo'], c['hi']))
         print(dist, bound); return dist <= bound * (1 + 1e-9)
+    if rp.get('kind') == 'deep':
+        print('re-run the check with the same seed (%r) to re-evaluate this case' % rp.get('seed'))
     return False
